@@ -47,13 +47,13 @@ def gen_cases(tier, seed, ctx):
     rnd = random.Random(seed)
     cases = []
     groups = {}
-    def add(kind, z, tgt, flags, limit, hdrs, body, cuts, mode, expect, group=None, variant=None):
+    def add(kind, z, tgt, flags, limit, hdrs, body, cuts, mode, expect, group=None, variant=None, warm=None):
         i = len(cases)
         tp = FG.write(ctx, 'd%d.zck' % i, tgt); FG.write(ctx, 'd%d.zck.before' % i, tgt)
         bp = FG.write(ctx, 'd%d.body' % i, body)
         meta = dict(kind=kind, group=group)
         if variant: meta['variant'] = variant
-        cases.append(E.Case('k%d' % i, 'DLFEED %s %s %d %s %s %s %s %s' % (tp, flags, limit, DG.hexlist(hdrs), bp, cuts, mode, expect), meta))
+        cases.append(E.Case('k%d' % i, 'DLFEED %s %s %d %s %s %s %s %s%s' % (tp, flags, limit, DG.hexlist(hdrs), bp, cuts, mode, expect, (' warm=' + warm) if warm else ''), meta))
     gid = [0]
     def frag_family(kind, z, tgt, flags, limit, hdrs, body, expect, cutlist, mode='stop'):
         gid[0] += 1
@@ -127,6 +127,11 @@ def gen_cases(tier, seed, ctx):
                             cl2 = ['-', 'b1' if small else 'b211', 'b5' if small else 'b16384'] + [DG.cuts_for(rnd, nb, 'k3') for _ in range(3)]
                             for mode in ('stop', 'cont'):
                                 frag_family('damaged/%s/lim%d/%s' % (tag, limit, mode), z, t, flags, limit, hdrs, bytes(m), 'bad:%d:%s' % (k, rs), cl2, mode=mode)
+                            # the same after the process has copied chunks between two other contexts (a downloader re-using a local
+                            # file first): the failed chunk must still end up zero-filled
+                            wp = FG.write(ctx, 'warm%d.zck' % len(cases), B)
+                            add('damaged-after-copy/%s/lim%d' % (tag, limit), z, t, flags, limit, hdrs, bytes(m), '-', 'stop', 'bad:%d:%s' % (k, rs), warm=wp)
+                            add('damaged-after-copy/%s/lim%d' % (tag, limit), z, t, flags, limit, hdrs, bytes(m), 'b7' if small else 'b16384', 'cont', 'bad:%d:%s' % (k, rs), warm=wp)
         # scanned validity ('-'): partially complete targets
         for _ in range(3 if tier == 'quick' else 12):
             t = bytearray(zero_t); off = len(hdr); fl = ''
@@ -194,7 +199,7 @@ def run(tier, seed, replay=None):
             "all subsets (thorough) or a sample; range limits -1/1/2/3 (single-range and multipart); targets whose requested extents hold "
             "zeros or garbage and whose valid chunks hold data; boundaries incl. regex metacharacters, quoted, 70 chars; extra part headers, "
             "header spellings; fragmentations: unfragmented, 1/2/3/7-byte pieces, ALL 1-cut partitions and (thorough) ALL 2-cut partitions "
-            "of the first response of each file, sampled 2-cut and k-cut partitions of the others; one damaged payload byte per family "
+            "of the first response of each file, sampled 2-cut and k-cut partitions of the others; one damaged payload byte per family (also after the process copied chunks between two other contexts) "
             "(stop and continue modes).  Families (same bytes, different fragmentation) are compared with each other on the implementation.")
     return E.standard_run(PROP, MODULES, gen_cases, tier, seed, replay, ASSUMPTIONS, rule, variant='asan', nontrivial=nontrivial,
                           timeout_s=60, post=post, project=project)
